@@ -77,14 +77,14 @@ def run(ck):
     proved = ck.proof_stage(["c02"], ["c02/Properties_C02"], "c02/Pins_C02.v")
     ck.harness_build(["evalsrv"])
     g = lang.Gen(ck.rng)
-    nh, np_ = (40, 60) if ck.tier == "quick" else (600, 900)
+    nh, np_ = (16, 24) if ck.tier == "quick" else (300, 500)
     items = [g.history() for _ in range(nh)] + [[g.program()] for _ in range(np_)]
     configs = all_configs()
     if ck.tier == "quick":
         base = [configs[0], {"STEEL_JIT": "false"}, configs[-1] if False else
                 {"STEEL_INLINE": "1", "STEEL_INLINE_RECURSIVE": "1", "STEEL_MODULE_INLINE": "1"},
                 {"STEEL_JIT": "false", "STEEL_CLOSURE_LIFTING": "false"}]
-        extra = ck.rng.sample(configs, 2)
+        extra = ck.rng.sample(configs, 1)
         chosen = base + [c for c in extra if c not in base]
     else:
         chosen = configs
